@@ -13,6 +13,8 @@ type Opts struct {
 	MaxOutbox    int
 	Actors       int
 	Threads      int
+	AliasPct     int // percentage of plain references that go through a redirecting alias (default 10; some worlds 100)
+	RelativePct  int // percentage of plain references spelled as absolute-path references (default 10)
 }
 
 func DefaultOpts(r *rand.Rand) Opts {
@@ -24,6 +26,8 @@ type Generated struct {
 	Entries []*Node // good starting points: thread roots, mid-thread posts, actors, activities
 	Actors  []*Node
 	Posts   []*Node
+
+	aliasPct, relativePct int
 }
 
 func (g *Generated) anomalous(o Opts) bool { return o.Anomaly > 0 && g.r.Intn(100) < o.Anomaly }
@@ -32,7 +36,13 @@ func (g *Generated) anomalous(o Opts) bool { return o.Anomaly > 0 && g.r.Intn(10
 func (g *Generated) mention(n *Node, fromHost string) *Edge {
 	switch x := g.r.Intn(10); {
 	case x < 5:
-		return URL(n)
+		e := URL(n)
+		if y := g.r.Intn(100); y < g.aliasPct {
+			e.Via = "alias"
+		} else if y < g.aliasPct+g.relativePct {
+			e.Via = "relative"
+		}
+		return e
 	case x < 8:
 		return Embed(n) // same host: used as is; other host: refetched by servitor
 	default:
@@ -76,6 +86,18 @@ func (g *Generated) paginate(c *Coll, items []*Edge, o Opts) {
 func Generate(r *rand.Rand, hosts []string, o Opts) *Generated {
 	g := &Generated{World: New(r, hosts)}
 	g.QueryIDs = r.Intn(3) == 0
+	g.aliasPct, g.relativePct = o.AliasPct, o.RelativePct
+	if o.AliasPct == 0 && o.RelativePct == 0 {
+		g.aliasPct, g.relativePct = 10, 10
+		switch r.Intn(8) {
+		case 0:
+			g.aliasPct, g.relativePct = 100, 0 // every plain reference is answered with a redirect first
+		case 1:
+			g.aliasPct, g.relativePct = 0, 100
+		case 2, 3:
+			g.aliasPct, g.relativePct = 0, 0
+		}
+	}
 	nh := len(hosts)
 	// actors: a few per host
 	for i := 0; i < o.Actors; i++ {
@@ -108,6 +130,7 @@ func Generate(r *rand.Rand, hosts []string, o Opts) *Generated {
 	}
 	day := 0
 	twins := map[*Node]*Node{}
+	homonyms := map[string]*Node{}
 	newPost := func(host string) *Node {
 		p := g.NewPost(host)
 		day++
@@ -119,6 +142,14 @@ func Generate(r *rand.Rand, hosts []string, o Opts) *Generated {
 		}
 		p.Published = fmt.Sprintf("2024-%02d-%02dT%02d:00:00%sZ", 1+(day/28)%12, 1+day%28, day%24, frac)
 		p.PostType = []string{"Note", "Note", "Article", "Page", "Video", "Image"}[r.Intn(6)]
+		switch r.Intn(8) {
+		case 0:
+			p.Body, p.BodyType = "text of **"+strings.ToLower(p.Label)+"** in *markdown*\n\n> quoted", "text/markdown"
+		case 1:
+			p.Body, p.BodyType = "text of "+strings.ToLower(p.Label)+" as plain text", "text/plain"
+		case 2:
+			p.Body, p.BodyType = "# "+strings.ToLower(p.Label)+"\ntext in gemtext\n> quoted", "text/gemini"
+		}
 		local := actorsOn(host)
 		if len(local) > 0 && r.Intn(8) > 0 {
 			p.Creators = []*Edge{g.mention(local[r.Intn(len(local))], host)}
@@ -133,13 +164,14 @@ func Generate(r *rand.Rand, hosts []string, o Opts) *Generated {
 			}
 		}
 		if r.Intn(3) == 0 {
+			p.BodyType = "text/html"
 			p.Body = fmt.Sprintf("<p>see <a href=\"https://links.example/a/%s\">this</a> and <img src=\"https://media.example/i/%s.png\" alt=\"pic\"></p>", p.Label, p.Label)
 			p.BodyLinks = []string{"https://links.example/a/" + p.Label, "https://media.example/i/" + p.Label + ".png"}
 		}
 		if r.Intn(12) == 0 {
 			// a link-rich post: two-digit link numbers exist
 			n := 9 + r.Intn(6)
-			p.Body, p.BodyLinks = "<p>many:", nil
+			p.Body, p.BodyLinks, p.BodyType = "<p>many:", nil, "text/html"
 			for i := 0; i < n; i++ {
 				l := fmt.Sprintf("https://links.example/m/%s/%d", p.Label, i+1)
 				p.Body += fmt.Sprintf(` <a href="%s">l%d</a>`, l, i+1)
@@ -308,7 +340,22 @@ func Generate(r *rand.Rand, hosts []string, o Opts) *Generated {
 			act.Published = fmt.Sprintf("2024-06-%02dT%02d:30:00Z", 28-i%28, i%24)
 			e := g.mention(act, c.Host)
 			if g.anomalous(o) {
-				switch r.Intn(10) {
+				switch r.Intn(11) {
+				case 10: // an activity on another host whose actor is written as the same relative reference as the owner's: there it names another actor
+					for _, oh := range hosts {
+						if oh == a.Host {
+							continue
+						}
+						hom := homonyms[a.ID+"|"+oh]
+						if hom == nil {
+							hom = g.NewActor(oh)
+							hom.ID = "https://" + oh + strings.TrimPrefix(a.ID, "https://"+a.Host) // same path and query, other host
+							homonyms[a.ID+"|"+oh] = hom
+						}
+						foreign := g.NewActivity(oh, "Announce", &Edge{To: hom, Mode: "url", Via: "relative"}, URL(g.Posts[r.Intn(len(g.Posts))]))
+						e = URL(foreign)
+						break
+					}
 				case 7: // a note embedded without an id that claims an author who has one (on another host or not): a forgery
 					anon := newPost(a.Host)
 					anon.Replies, anon.Parent = nil, nil
